@@ -24,6 +24,7 @@ import (
 	"github.com/Trendyol/go-dcp/helpers"
 	"github.com/Trendyol/go-dcp/membership"
 	"github.com/Trendyol/go-dcp/servicediscovery"
+	"github.com/Trendyol/go-dcp/stream"
 	"github.com/asaskevich/EventBus"
 )
 
@@ -33,6 +34,9 @@ type sdScenario struct {
 	jts          []int64
 	fail1, fail2 map[int]bool
 	rerr         map[int]bool
+	// followers whose process dies silently and registers again under the same identity at t = 1 s (before the first
+	// heartbeat round): the leader must end up talking to the NEW connection
+	readd map[int]bool
 }
 
 type sdFake struct {
@@ -42,6 +46,7 @@ type sdFake struct {
 	rerr     bool
 	calls    []string // Rebalance arguments
 	closed   bool
+	dead     bool // the peer process behind this connection is gone: pings fail, IsConnected keeps saying true (rpc_client.go)
 	follower servicediscovery.ServiceDiscovery
 }
 
@@ -52,7 +57,10 @@ func (f *sdFake) Close() error {
 	return nil
 }
 func (f *sdFake) Ping() error {
-	if f.failing(f.idx) {
+	f.mu.Lock()
+	dead := f.dead
+	f.mu.Unlock()
+	if dead || f.failing(f.idx) {
 		return errors.New("scripted ping failure")
 	}
 	return nil
@@ -62,8 +70,14 @@ func (f *sdFake) IsConnected() bool { return true }
 func (f *sdFake) Reconnect() error  { return nil }
 func (f *sdFake) Rebalance(memberNumber int, totalMembers int) error {
 	f.mu.Lock()
-	f.calls = append(f.calls, fmt.Sprintf("%d/%d", memberNumber, totalMembers))
+	dead := f.dead
+	if !dead {
+		f.calls = append(f.calls, fmt.Sprintf("%d/%d", memberNumber, totalMembers))
+	}
 	f.mu.Unlock()
+	if dead {
+		return errors.New("connection is shut down")
+	}
 	if f.rerr {
 		return errors.New("scripted rebalance failure")
 	}
@@ -98,7 +112,11 @@ func (s *sdScenario) op() string {
 		}
 		j = strings.Join(sb, ",")
 	}
-	return fmt.Sprintf("mb-sd %s %s %s %s", j, sdSet(s.fail1), sdSet(s.fail2), sdSet(s.rerr))
+	op := fmt.Sprintf("mb-sd %s %s %s %s", j, sdSet(s.fail1), sdSet(s.fail2), sdSet(s.rerr))
+	if sdSet(s.readd) != "-" {
+		op += " readd=" + sdSet(s.readd)
+	}
+	return op
 }
 
 func sdRun(s *sdScenario) (res string) {
@@ -131,7 +149,17 @@ func sdRun(s *sdScenario) (res string) {
 		fakes[i] = &sdFake{idx: i, failing: failing, rerr: s.rerr[i], follower: servicediscovery.NewServiceDiscovery(cfg, fbus[i])}
 		sd.Add(servicediscovery.NewService(fakes[i], fmt.Sprintf("f%d", i), s.jts[i]))
 	}
-	sd.BeLeader()
+	// promotion through the real handler of stream/leader_election.go (the followers have registered before the callback runs,
+	// as happens when the lease holder answers Register rpcs while kubernetes/leader_elector.go is still labelling the pod)
+	le := stream.NewLeaderElection(cfg, sd, leaderBus)
+	handler, isHandler := le.(interface {
+		OnBecomeLeader()
+		OnResignLeader()
+	})
+	if !isHandler {
+		return "no-handler"
+	}
+	handler.OnBecomeLeader()
 	t0 := time.Now()
 	sd.StartHeartbeat()
 	sd.StartMonitor()
@@ -173,6 +201,23 @@ func sdRun(s *sdScenario) (res string) {
 		return strings.Join(sb, " ")
 	}
 	s0 := take()
+	if len(s.readd) > 0 {
+		time.Sleep(time.Until(t0.Add(1000 * time.Millisecond)))
+		for i := 0; i < n; i++ {
+			if !s.readd[i] {
+				continue
+			}
+			old := fakes[i]
+			old.mu.Lock()
+			old.dead = true
+			old.mu.Unlock()
+			old.mu.Lock()
+			nf := &sdFake{idx: i, failing: failing, rerr: s.rerr[i], follower: old.follower, calls: append([]string(nil), old.calls...)}
+			old.mu.Unlock()
+			sd.Add(servicediscovery.NewService(nf, fmt.Sprintf("f%d", i), s.jts[i])) // = rpc_server.go Handler.Register
+			fakes[i] = nf
+		}
+	}
 	time.Sleep(time.Until(t0.Add(8750 * time.Millisecond)))
 	s1 := take()
 	phase2.Lock()
@@ -199,6 +244,11 @@ func sdRun(s *sdScenario) (res string) {
 	if len(left) != n-nClosed {
 		return fmt.Sprintf("getall-mismatch %v closed=%s", left, sdSet(closed))
 	}
+	// resigning drops every follower connection
+	handler.OnResignLeader()
+	if rest := sd.GetAll(); len(rest) != 0 {
+		return fmt.Sprintf("resign-mismatch %v", rest)
+	}
 	return fmt.Sprintf("%s | %s | closed=%s", show("M1", s0, s1), show("M2", s1, s2), sdSet(closed))
 }
 
@@ -221,10 +271,13 @@ func sdReplay(path string) (scs []*sdScenario) {
 	}
 	for _, ln := range strings.Split(string(b), "\n") {
 		f := strings.Fields(strings.SplitN(ln, "\t", 2)[0])
-		if len(f) != 5 || f[0] != "mb-sd" {
+		if (len(f) != 5 && len(f) != 6) || f[0] != "mb-sd" {
 			continue
 		}
 		s := &sdScenario{fail1: set(f[2]), fail2: set(f[3]), rerr: set(f[4])}
+		if len(f) == 6 {
+			s.readd = set(strings.TrimPrefix(f[5], "readd="))
+		}
 		if f[1] != "-" {
 			for _, x := range strings.Split(f[1], ",") {
 				var j int64
@@ -297,6 +350,16 @@ func runC10Sd(c *Ctx) {
 	for i := 0; i < c.N(12, 500); i++ {
 		scs = append(scs, mk(c.R.Intn(6), c.R.Chance(25)))
 	}
+	// silent restarts of followers under the same identity
+	for i := 0; i < c.N(8, 120); i++ {
+		s := mk(1+c.R.Intn(5), false)
+		s.readd = subset(len(s.jts), 50)
+		if i < 3 {
+			s.fail1, s.fail2, s.rerr = map[int]bool{}, map[int]bool{}, map[int]bool{}
+			s.readd = map[int]bool{c.R.Intn(len(s.jts)): true}
+		}
+		scs = append(scs, s)
+	}
 	if replayFile != "" {
 		scs = sdReplay(replayFile)
 	}
@@ -329,6 +392,9 @@ func runC10Sd(c *Ctx) {
 		}
 		if sdSet(s.rerr) != "-" {
 			tags = append(tags, "rebalance-error")
+		}
+		if sdSet(s.readd) != "-" {
+			tags = append(tags, "re-registered")
 		}
 		c.E.EndCase(len(s.jts) >= 2, tags...)
 	}
